@@ -44,7 +44,7 @@ func (c20Driver) ID() string { return "C20" }
 
 func (c20Driver) Tier(t string) core.Tier {
 	if t == "thorough" {
-		return core.Tier{Runs: 40_000_000, AnnounceEvery: 20000}
+		return core.Tier{Runs: 250_000_000, AnnounceEvery: 50000}
 	}
 	return core.Tier{Runs: 1_200_000, AnnounceEvery: 5000}
 }
